@@ -7,11 +7,13 @@
 EXTENDS PromText
 CONSTANTS Alphabet,   \* code points strings are built from
           MaxLen,     \* every string up to this length in ONE slot (others benign)
-          PairLen,    \* every pair of strings up to this length in TWO slots
+          PairAlphabet, PairLen,    \* every pair of strings over PairAlphabet up to this length in TWO slots
           Scopes      \* which scopes this run explores
 
 Strs(n) == UNION {[1..k -> Alphabet] : k \in 0..n}
 NE(n)   == Strs(n) \ {<<>>}
+PStrs(n) == UNION {[1..k -> PairAlphabet] : k \in 0..n}
+PNE(n)   == PStrs(n) \ {<<>>}
 
 M == <<109>>  K == <<107>>  Z == <<122>>  V == <<118>>  D == <<100>>  X == <<120>>  G == <<103>>  W == <<119>>
 Q3 == << <<48>>, <<48,46,53>>, <<49>> >>          \* quantile tokens 0 0.5 1
@@ -28,35 +30,41 @@ Tailer == F("counter", Z, FALSE, <<>>, "none", << Ser(<<>>) >>)     \* a plain f
 KeysOK(ks) == /\ \A i, j \in DOMAIN ks : i # j => SanitizeLabelKey(ks[i]) # SanitizeLabelKey(ks[j])
               /\ \A i \in DOMAIN ks : ks[i] # <<>> /\ SanitizeLabelKey(ks[i]) \notin {L_LE, L_QUANT}
 
-ScopeNames ==
-  {Scene(Cfg(FALSE, FALSE, <<>>), << F("counter", s, TRUE, D, "none", << Ser(<<>>) >>), Tailer >>) : s \in NE(MaxLen)}
-  \cup {Scene(Cfg(TRUE, TRUE, <<>>), << F("distribution", s, TRUE, D, "Bytes", << Ser(<< <<K, V>> >>) >>) >>) : s \in NE(MaxLen - 1)}
-ScopeKeys ==
-  {Scene(Cfg(FALSE, FALSE, <<>>), << F("counter", M, FALSE, <<>>, "none", << Ser(<< <<s, V>>, <<Z, X>> >>) >>) >>)
-     : s \in {t \in NE(MaxLen) : KeysOK(<<t, Z>>)}}
-  \cup {Scene(Cfg(FALSE, TRUE, << <<s, V>> >>), << F("distribution", M, FALSE, <<>>, "none", << Ser(<<>>) >>) >>)
-     : s \in {t \in NE(MaxLen - 1) : KeysOK(<<t>>)}}
-ScopeValues ==
-  {Scene(Cfg(FALSE, FALSE, <<>>), << F("counter", M, FALSE, <<>>, "none", << Ser(<< <<K, s>>, <<Z, X>> >>) >>), Tailer >>) : s \in Strs(MaxLen)}
-  \cup {Scene(Cfg(FALSE, FALSE, <<>>), << F("distribution", M, FALSE, <<>>, "none", << Ser(<< <<K, s>> >>) >>) >>) : s \in Strs(MaxLen - 1)}
-ScopeDescs ==
-  {Scene(Cfg(FALSE, FALSE, <<>>), << F("gauge", M, TRUE, s, "none", << Ser(<<>>) >>), Tailer >>) : s \in Strs(MaxLen)}
-\* every kind x unit x suffix on/off x histogram/summary x described or not; two series, a global
-\* label overridden by the key's own label in the second one
-ScopeMatrix ==
-  {Scene(Cfg(sfx, hist, << <<K, V>>, <<G, X>> >>),
-         << F(kind, M, descd, D, u, << Ser(<<>>), Ser(<< <<W, X>>, <<K, W>> >>) >>), Tailer >>)
-     : sfx \in BOOLEAN, hist \in BOOLEAN, kind \in {"counter", "gauge", "distribution"},
-       descd \in BOOLEAN, u \in Units \cup {"none"}}
-ScopePairs ==
-  {Scene(Cfg(FALSE, FALSE, <<>>), << F("counter", a, TRUE, b, "none", << Ser(<<>>) >>) >>) : a \in NE(PairLen), b \in Strs(PairLen)}
-  \cup {Scene(Cfg(FALSE, TRUE, <<>>), << F("distribution", M, FALSE, <<>>, "none", << Ser(<< <<a, b>> >>) >>) >>)
-          : a \in {t \in NE(PairLen) : KeysOK(<<t>>)}, b \in Strs(PairLen)}
-  \cup {Scene(Cfg(FALSE, FALSE, <<>>), << F("gauge", M, FALSE, <<>>, "none", << Ser(<< <<K, a>>, <<Z, b>> >>) >>) >>)
-          : a \in Strs(PairLen), b \in Strs(PairLen)}
+\* NB no \cup of big sets and no big constant-level definitions: TLC evaluates those eagerly, once per
+\* worker, with quadratic unions.  One scope name = one set comprehension, chosen by \E in MCInit.
+ScopeSet(sc) ==
+  CASE sc = "names" ->
+         {Scene(Cfg(FALSE, FALSE, <<>>), << F("counter", s, TRUE, D, "none", << Ser(<<>>) >>) >>) : s \in NE(MaxLen)}
+    [] sc = "names_dist" ->    \* through the histogram path with a unit suffix
+         {Scene(Cfg(TRUE, TRUE, <<>>), << F("distribution", s, TRUE, D, "Bytes", << Ser(<< <<K, V>> >>) >>), Tailer >>) : s \in NE(MaxLen - 1)}
+    [] sc = "keys" ->
+         {Scene(Cfg(FALSE, FALSE, <<>>), << F("counter", M, FALSE, <<>>, "none", << Ser(<< <<s, V>>, <<Z, X>> >>) >>) >>)
+            : s \in {t \in NE(MaxLen) : KeysOK(<<t, Z>>)}}
+    [] sc = "keys_global" ->   \* as a global label, followed by the le label
+         {Scene(Cfg(FALSE, TRUE, << <<s, V>> >>), << F("distribution", M, FALSE, <<>>, "none", << Ser(<<>>) >>) >>)
+            : s \in {t \in NE(MaxLen - 1) : KeysOK(<<t>>)}}
+    [] sc = "values" ->        \* followed by another label
+         {Scene(Cfg(FALSE, FALSE, <<>>), << F("counter", M, FALSE, <<>>, "none", << Ser(<< <<K, s>>, <<Z, X>> >>) >>) >>) : s \in Strs(MaxLen)}
+    [] sc = "values_dist" ->   \* followed by the quantile label / the closing brace
+         {Scene(Cfg(FALSE, FALSE, <<>>), << F("distribution", M, FALSE, <<>>, "none", << Ser(<< <<K, s>> >>) >>), Tailer >>) : s \in Strs(MaxLen - 1)}
+    [] sc = "descs" ->
+         {Scene(Cfg(FALSE, FALSE, <<>>), << F("gauge", M, TRUE, s, "none", << Ser(<<>>) >>) >>) : s \in Strs(MaxLen)}
+    \* every kind x unit x suffix on/off x histogram/summary x described or not; two series, a global
+    \* label overridden by the key's own label in the second one
+    [] sc = "matrix" ->
+         {Scene(Cfg(sfx, hist, << <<K, V>>, <<G, X>> >>),
+                << F(kind, M, descd, D, u, << Ser(<<>>), Ser(<< <<W, X>>, <<K, W>> >>) >>), Tailer >>)
+            : sfx \in BOOLEAN, hist \in BOOLEAN, kind \in {"counter", "gauge", "distribution"},
+              descd \in BOOLEAN, u \in Units \cup {"none"}}
+    [] sc = "pair_name_desc" ->
+         {Scene(Cfg(FALSE, FALSE, <<>>), << F("counter", a, TRUE, b, "none", << Ser(<<>>) >>) >>) : a \in PNE(PairLen), b \in PStrs(PairLen)}
+    [] sc = "pair_key_value" ->
+         {Scene(Cfg(FALSE, TRUE, <<>>), << F("distribution", M, FALSE, <<>>, "none", << Ser(<< <<a, b>> >>) >>) >>)
+            : a \in {t \in PNE(PairLen) : KeysOK(<<t>>)}, b \in PStrs(PairLen)}
+    [] sc = "pair_values" ->
+         {Scene(Cfg(FALSE, FALSE, <<>>), << F("gauge", M, FALSE, <<>>, "none", << Ser(<< <<K, a>>, <<Z, b>> >>) >>) >>)
+            : a \in PStrs(PairLen), b \in PStrs(PairLen)}
 
-MCInputs ==
-  (IF "names" \in Scopes THEN ScopeNames ELSE {}) \cup (IF "keys" \in Scopes THEN ScopeKeys ELSE {})
-  \cup (IF "values" \in Scopes THEN ScopeValues ELSE {}) \cup (IF "descs" \in Scopes THEN ScopeDescs ELSE {})
-  \cup (IF "matrix" \in Scopes THEN ScopeMatrix ELSE {}) \cup (IF "pairs" \in Scopes THEN ScopePairs ELSE {})
+MCInit == \E sc \in Scopes : InitWith(ScopeSet(sc))
+MCSpec == MCInit /\ [][Next]_vars
 =============================================================================
